@@ -80,7 +80,7 @@ func vcRuns() []runSpec {
 	return []runSpec{
 		{Harness: pkgWitness + ".VerifVCSound", Quick: q, Thorough: t, Covers: []string{"vc/accepts-growth", "vc/accepts-equal", "vc/rejects"}},
 		{Harness: pkgWitness + ".VerifVCAgree", Quick: q, Thorough: t, Covers: []string{"vc/both-accept", "vc/both-reject"}},
-		{Harness: pkgWitness + ".VerifVCEdge", Quick: p("vc_inline", 1), Thorough: p("vc_inline", 1), Covers: []string{"vc/edge"}},
+		{Harness: pkgWitness + ".VerifVCEdge", Quick: p("vc_inline", 1), Thorough: p("vc_inline", 1), Covers: []string{"vc/edge", "vc/edge-length-rule"}},
 		{Harness: pkgWitness + ".VerifVCComplete", Quick: q, Thorough: t, Covers: []string{"vc/nontrivial-proof"}},
 	}
 }
@@ -101,6 +101,8 @@ func init() {
 	vr := vcRuns()
 	checks["C01"].Runs = append(checks["C01"].Runs, vr[0], vr[2])
 	checks["C09"].Runs = append(checks["C09"].Runs, vr[1], vr[2])
+	// proofs of every length the reference prover produces, through the real verifier, for concrete sizes
+	checks["C09"].Runs = append(checks["C09"].Runs, runSpec{Harness: pkgWitness + ".VerifHonestStep", Quick: p("n", 8, "signers", 1, "vc_inline", 1), Thorough: p("n", 32, "signers", 1, "vc_inline", 1), Covers: []string{"honest/growth-accepted", "honest/first-use-accepted", "honest/refresh-accepted"}})
 	checks["C01"].Runs = append(checks["C01"].Runs, runSpec{Harness: pkgWitness + ".VerifUpdateInline", Quick: p("n", 6, "signers", 1, "vc_inline", 1), Thorough: p("n", 12, "signers", 1, "vc_inline", 1), Covers: []string{"inline/growth-accepted", "inline/proof-refused"}})
 	// histories of length two on one witness instance (in-process state between calls)
 	twoCovers := []string{"two/both-accepted-different-logs", "two/both-accepted-same-log", "two/same-bytes-replayed-to-another-log"}
@@ -136,6 +138,11 @@ func init() {
 	reg(&checkSpec{ID: "C11", Assumptions: strAssume, Runs: []runSpec{
 		{Harness: pkgBastion + ".VerifParseBodyHashLengths", Domain: sym.DomString, Solver: sym.CVC5, Quick: p("maxhash", 64), Thorough: p("maxhash", 64), Covers: []string{"parse/lengths-roundtrip"}},
 		{Harness: pkgBastion + ".VerifParseBodyRoundTrip", Domain: sym.DomString, Solver: sym.CVC5, Quick: p("k", 8), Thorough: p("k", 32), Unwind: 200, Covers: []string{"parse/roundtrip-with-proof"}},
+		// the far end of the property's 0..64 range: the line count is explored with one arbitrary hash repeated
+		{Harness: pkgBastion + ".VerifParseBodyRoundTrip", Domain: sym.DomString, Solver: sym.CVC5, Quick: p("k", 64, "kmin", 9, "samehash", 1), Thorough: p("k", 64, "kmin", 33, "samehash", 1), Unwind: 200, Covers: []string{"parse/roundtrip-with-proof"}},
+		{Harness: pkgBastion + ".VerifParseBodyRoundTrip", Domain: sym.DomString, Solver: sym.CVC5, OnlyThorough: true, Thorough: p("k", 64, "kmin", 63), Unwind: 200, TimeoutMs: 60000, Covers: []string{"parse/roundtrip-with-proof"}},
+		{Harness: pkgWitness + ".VerifProofRoundTrip", Domain: sym.DomString, Solver: sym.CVC5, Quick: p("k", 64, "kmin", 9, "maxsplit", 66, "samehash", 1), Thorough: p("k", 64, "kmin", 33, "maxsplit", 66, "samehash", 1), Unwind: 200},
+		{Harness: pkgFeedbastion + ".VerifWriterRoundTrip", Domain: sym.DomString, Solver: sym.CVC5, Quick: p("k", 64, "kmin", 9, "samehash", 1), Thorough: p("k", 64, "kmin", 33, "samehash", 1), Unwind: 200},
 		{Harness: pkgBastion + ".VerifParseBodyRefusal", Domain: sym.DomString, Solver: sym.CVC5, Quick: p("k", 2), Thorough: p("k", 3), Unwind: 4, CutOnUnwind: true, TimeoutMs: 30000, Covers: []string{"parse/accepts-one-proof-line", "parse/refuses"}},
 		{Harness: pkgWitness + ".VerifProofRoundTrip", Domain: sym.DomString, Solver: sym.CVC5, Quick: p("k", 8, "maxsplit", 10), Thorough: p("k", 32, "maxsplit", 34), Unwind: 200, Covers: []string{"proof/roundtrip-two"}},
 		{Harness: pkgFeedbastion + ".VerifWriterRoundTrip", Domain: sym.DomString, Solver: sym.CVC5, Quick: p("k", 8), Thorough: p("k", 32), Unwind: 200, Covers: []string{"writer/roundtrip-two"}},
@@ -182,6 +189,9 @@ func init() {
 	checks["C05"].Runs = append(checks["C05"].Runs, mainRun)
 	// identity agreement between witness map, bastion handler and feeders (C12), through the
 	// repository's own AsLogMap / config.NewLog
+	for _, id := range []string{"C02", "C12"} {
+		checks[id].Runs = append(checks[id].Runs, runSpec{Harness: pkgOmni + ".VerifConfig", Domain: sym.DomString, Solver: sym.CVC5, Quick: p("logs", 3), Thorough: p("logs", 4), Covers: []string{"cfg/refused-at-start-up", "cfg/accepted"}})
+	}
 	checks["C12"].Runs = append(checks["C12"].Runs, runSpec{Harness: pkgOmni + ".VerifBastion", Quick: p("logs", 2, "maxproof", 1, "store", 0, "replay", 0), Thorough: p("logs", 3, "maxproof", 1, "store", 0, "replay", 0), Covers: []string{"bast/200", "bast/404"}})
 	reg(&checkSpec{ID: "vc", Runs: vcRuns(), Assumptions: commonAssumptions})
 	reg(&checkSpec{ID: "litmus", Runs: []runSpec{
